@@ -1,13 +1,18 @@
 package main
 
 import (
+	"bufio"
 	"bytes"
 	"context"
 	"encoding/binary"
+	"encoding/hex"
 	"fmt"
 	"io"
 	"log"
 	"net"
+	"os"
+	"os/exec"
+	"strconv"
 	"strings"
 	"sync"
 	"time"
@@ -169,14 +174,16 @@ func hostileHelperCase(c *Ctx, r *Rng, p *radius.Packet, sec []byte) {
 }
 
 // a packet server fed arbitrary datagrams keeps serving and never hands its handler a packet the parser rejects
-func serverFlood(c *Ctx, r *Rng, n int) {
+// the server under flood runs in a child process (scenario "c02-server"): a panic in one of its goroutines cannot
+// be recovered, and the parent still knows which datagrams it had sent
+func scenarioServer() (bool, string) {
 	sec := []byte("flood-secret")
 	var mu sync.Mutex
 	seen := map[string]int{} // authenticator -> times handled
 	pc, err := net.ListenPacket("udp", "127.0.0.1:0")
 	if err != nil {
-		c.Note("server flood skipped: %v", err)
-		return
+		fmt.Println("ADDR none", err)
+		return true, ""
 	}
 	srv := &radius.PacketServer{
 		SecretSource: radius.StaticSecretSource(sec),
@@ -189,14 +196,85 @@ func serverFlood(c *Ctx, r *Rng, n int) {
 		InsecureSkipVerify: false,
 		ErrorLog:           log.New(io.Discard, "", 0),
 	}
-	done := make(chan error, 1)
-	go func() { done <- srv.Serve(pc) }()
-	defer func() {
-		ctx, cancel := context.WithTimeout(context.Background(), 5*time.Second)
-		srv.Shutdown(ctx)
-		cancel()
-	}()
-	cl, err := net.Dial("udp", pc.LocalAddr().String())
+	go srv.Serve(pc)
+	fmt.Println("ADDR", pc.LocalAddr().String())
+	io.Copy(io.Discard, os.Stdin) // until the parent closes the pipe
+	ctx, cancel := context.WithTimeout(context.Background(), 5*time.Second)
+	srv.Shutdown(ctx)
+	cancel()
+	mu.Lock()
+	defer mu.Unlock()
+	for a, n := range seen {
+		fmt.Printf("SEEN %x %d\n", a, n)
+	}
+	return true, ""
+}
+
+func init() { scenarios["c02-server"] = scenarioServer }
+
+func serverFlood(c *Ctx, r *Rng, n int) {
+	sec := []byte("flood-secret")
+	seen := map[string]int{}
+	cmd := exec.Command(os.Args[0], "-scenario", "c02-server")
+	stdin, _ := cmd.StdinPipe()
+	stdout, _ := cmd.StdoutPipe()
+	var stderr bytes.Buffer
+	cmd.Stderr = &stderr
+	if err := cmd.Start(); err != nil {
+		c.Note("server flood skipped: %v", err)
+		return
+	}
+	lines := bufio.NewScanner(stdout)
+	lines.Buffer(make([]byte, 1<<20), 1<<20)
+	addr := ""
+	if lines.Scan() {
+		f := strings.Fields(lines.Text())
+		if len(f) >= 2 && f[0] == "ADDR" && f[1] != "none" {
+			addr = f[1]
+		}
+	}
+	if addr == "" {
+		stdin.Close()
+		cmd.Wait()
+		c.Note("server flood skipped: the server process could not listen")
+		return
+	}
+	stopped := false
+	var last [][]byte // the datagrams sent most recently
+	// stop ends the server process and reads what its handler saw; a crash of the process is reported with its output
+	stop := func() (crash string) {
+		if stopped {
+			return ""
+		}
+		stopped = true
+		stdin.Close()
+		for lines.Scan() {
+			f := strings.Fields(lines.Text())
+			if len(f) == 3 && f[0] == "SEEN" {
+				a, _ := hex.DecodeString(f[1])
+				k, _ := strconv.Atoi(f[2])
+				seen[string(a)] = k
+			}
+		}
+		werr := make(chan error, 1)
+		go func() { werr <- cmd.Wait() }()
+		select {
+		case err := <-werr:
+			if err != nil {
+				msg := stderr.String()
+				if i := strings.Index(msg, "panic:"); i >= 0 {
+					msg = msg[i:]
+				}
+				return fmt.Sprintf("the server process ended with %v: %s", err, trunc(msg, 700))
+			}
+		case <-time.After(15 * time.Second):
+			cmd.Process.Kill()
+			return "the server process did not shut down within 15 s"
+		}
+		return ""
+	}
+	defer stop()
+	cl, err := net.Dial("udp", addr)
 	if err != nil {
 		c.Note("server flood skipped: %v", err)
 		return
@@ -234,7 +312,11 @@ func serverFlood(c *Ctx, r *Rng, n int) {
 			if k, err := cl.Read(buf); err == nil && k >= 20 && buf[1] == d[1] {
 				answered++
 			} else {
-				c.Fail("spec", "PacketServer.Serve", "server-stopped-serving", fmt.Sprintf("after %d datagrams, valid request %x", i, d), fmt.Sprint("no reply: ", err), "an Access-Accept", "a packet server fed arbitrary datagrams keeps serving")
+				var prev []string
+				for _, l := range last {
+					prev = append(prev, hx(l))
+				}
+				c.Fail("spec", "PacketServer.Serve", "server-stopped-serving", fmt.Sprintf("after %d datagrams, the last ones being %s, valid request %x", i, strings.Join(prev, " / "), d), fmt.Sprint("no reply: ", err, "; ", stop()), "an Access-Accept", "a packet server fed arbitrary datagrams keeps serving")
 				return
 			}
 			if i%8 == 3 {
@@ -251,13 +333,23 @@ func serverFlood(c *Ctx, r *Rng, n int) {
 			sent[string(d[4:20])] = append(sent[string(d[4:20])], d)
 		}
 		cl.Write(d)
+		last = append(last, d)
+		if len(last) > 3 {
+			last = last[1:]
+		}
 		// drain any reply (hostile datagrams that happen to be valid requests are answered too)
 		cl.SetReadDeadline(time.Now().Add(2 * time.Millisecond))
 		cl.Read(buf)
 	}
 	time.Sleep(50 * time.Millisecond)
-	mu.Lock()
-	defer mu.Unlock()
+	if crash := stop(); crash != "" {
+		var prev []string
+		for _, l := range last {
+			prev = append(prev, hx(l))
+		}
+		c.Fail("spec", "PacketServer.Serve", "server-crashed", fmt.Sprintf("%d datagrams, the last ones being %s", n, strings.Join(prev, " / ")), crash, "a clean shutdown", "a packet server fed arbitrary datagrams keeps serving")
+		return
+	}
 	for auth, times := range seen {
 		ds, ok := sent[auth]
 		if !ok {
